@@ -8,6 +8,7 @@ import (
 	"io/ioutil"
 	"os"
 	"sort"
+	"strings"
 
 	"verif/harness/mon"
 	"verif/harness/sim"
@@ -134,6 +135,13 @@ func CheckSignatures(r *sim.Rand, rep Reporter) {
 			subs = append(subs, single(r, seed, 2+i))
 		}
 	}
+	rp, rq := -1, -1
+	if r.Chance(30) {
+		// the same component key listed in two positions
+		rp = r.Intn(n - 1)
+		rq = rp + 1 + r.Intn(n-1-rp)
+		subs[rq] = subs[rp]
+	}
 	mk := sim.NewMultiActor("mk", subs...)
 	parts := make([][]byte, n)
 	for i, s := range subs {
@@ -197,6 +205,21 @@ func CheckSignatures(r *sim.Rand, rep Reporter) {
 	if subs[i].Multi != nil || !samePub(subs[i].Pub, b.Pub) {
 		mjudge("component-other-key", ok, false)
 	}
+	if rq >= 0 {
+		// a key listed twice must sign in both positions
+		rep.Count("c19.multisig.repeated_key_cases", 1)
+		for _, v := range []struct {
+			what string
+			sig  []byte
+		}{{"repeated-key-later-position-other-message", subs[rq].Sign(m2)}, {"repeated-key-later-position-garbage", r.Bytes(64)}, {"repeated-key-later-position-empty", []byte{}}, {"repeated-key-later-position-outsider", b.Sign(m)}} {
+			if v.what == "repeated-key-later-position-outsider" && subs[rq].Multi == nil && samePub(subs[rq].Pub, b.Pub) {
+				continue
+			}
+			x := append([][]byte{}, parts...)
+			x[rq] = v.sig
+			mjudge(v.what, x, false)
+		}
+	}
 	// reversed
 	if n >= 2 {
 		rv := make([][]byte, n)
@@ -227,7 +250,55 @@ type kbEntry struct {
 	pub  crypto.PublicKey
 }
 
-var passes = []string{"", "p", "correct horse", "пароль-密码-🔑", string(bytes.Repeat([]byte("x"), 1024)), "pass2", " "}
+var passes = []string{"", "p", "correct horse", "пароль-密码-🔑", string(bytes.Repeat([]byte("x"), 1024)), "pass2", " ",
+	string(bytes.Repeat([]byte("x"), 1023)), string(bytes.Repeat([]byte("x"), 72)), string(bytes.Repeat([]byte("x"), 73)),
+	string(bytes.Repeat([]byte("0123456789"), 8)) + "-tail-A", string(bytes.Repeat([]byte("0123456789"), 8)) + "-tail-B", string(bytes.Repeat([]byte("0123456789"), 8)),
+	"Pass2"}
+
+// kdfEquivalent: scrypt starts with PBKDF2-HMAC-SHA256 keyed by the passphrase, and HMAC zero-pads keys shorter than
+// its 64-byte block: passphrases of at most 64 bytes that differ only in trailing NUL bytes derive the same key.
+func kdfEquivalent(a, b string) bool {
+	if len(a) > 64 || len(b) > 64 {
+		return a == b
+	}
+	return strings.TrimRight(a, "\x00") == strings.TrimRight(b, "\x00")
+}
+
+// nearPass: a wrong passphrase that is close to the right one (a prefix, an extension, one byte changed at the end,
+// the first 72 / 64 / 56 bytes).
+func nearPass(r *sim.Rand, right string) string {
+	for try := 0; try < 8; try++ {
+		var p string
+		switch r.Intn(6) {
+		case 0:
+			if len(right) > 0 {
+				p = right[:len(right)-1]
+			}
+		case 1:
+			p = right + "x"
+		case 2:
+			if len(right) > 0 {
+				b := []byte(right)
+				b[len(b)-1] ^= 1
+				p = string(b)
+			}
+		case 3:
+			if n := []int{72, 64, 56, 32}[r.Intn(4)]; len(right) > n {
+				p = right[:n]
+			}
+		case 4:
+			p = right + right
+		case 5:
+			if len(right) > 1 {
+				p = right[1:]
+			}
+		}
+		if p != right && (p != "" || right != "") {
+			return p
+		}
+	}
+	return right + "!"
+}
 
 // RunKeybase executes a program of nops operations against a fresh keybase and a model.
 func RunKeybase(r *sim.Rand, nops int, lazy bool, rep Reporter) {
@@ -266,6 +337,12 @@ func RunKeybase(r *sim.Rand, nops int, lazy bool, rep Reporter) {
 		return a, model[a]
 	}
 	wrongPass := func(e *kbEntry) string {
+		if r.Chance(50) {
+			if p := nearPass(r, e.pass); !kdfEquivalent(p, e.pass) {
+				rep.Count("c19.kb.near_miss_passphrases", 1)
+				return p
+			}
+		}
 		for {
 			p := passes[r.Intn(len(passes))]
 			if p != e.pass {
@@ -451,9 +528,19 @@ func RunKeybase(r *sim.Rand, nops int, lazy bool, rep Reporter) {
 			if len(m) > 4096 {
 				m = m[:4096]
 			}
+			if r.Chance(4) && len(e.pass) < 64 {
+				// the one family of distinct passphrases that the KDF cannot tell apart (probed read-only)
+				if _, _, err := kb.Sign(ad, e.pass+"\x00", m); err == nil {
+					rep.Violate("C19", "kb-wrong-pass-yields-key/trailing-nul-equivalent", fmt.Sprintf("Sign accepts the %d-byte passphrase plus a trailing NUL byte for a key protected by the %d-byte one", len(e.pass), len(e.pass)))
+				}
+				rep.Count("c19.kb.trailing_nul_probes", 1)
+				continue
+			}
 			if r.Chance(35) {
-				if s, _, err := kb.Sign(ad, wrongPass(e), m); err == nil {
-					rep.Violate("C19", "kb-wrong-pass-yields-key/sign", fmt.Sprintf("Sign with a wrong passphrase returned a signature of %d bytes", len(s)))
+				if wp := wrongPass(e); true {
+					if s, _, err := kb.Sign(ad, wp, m); err == nil {
+						rep.Violate("C19", "kb-wrong-pass-yields-key/sign", fmt.Sprintf("Sign with a wrong passphrase (%d bytes %q..., right one %d bytes %q...) returned a signature of %d bytes", len(wp), cut(wp), len(e.pass), cut(e.pass), len(s)))
+					}
 				}
 				rep.Count("c19.kb.wrong_pass", 1)
 				continue
@@ -495,4 +582,11 @@ func RunKeybase(r *sim.Rand, nops int, lazy bool, rep Reporter) {
 	for _, a := range addrs() {
 		intact(a, model[a], "end-of-program")
 	}
+}
+
+func cut(s string) string {
+	if len(s) > 24 {
+		return s[:24]
+	}
+	return s
 }
